@@ -158,6 +158,8 @@ class Plan:
         else:
             self.nser = 1
             self.labels = [None]
+        if o.get("zlabels") is not None and (self.z or self.multi):
+            self.labels = list(o["zlabels"])
         # colour mode
         self.c = case.get("c")
         self.cmap_name = o.get("colormap")
